@@ -23,20 +23,37 @@ CONSTANTS
     ArgSet,         \* the argument tuples in use (a subset of Args)
     RRV, SIGV, KEYV,\* the variants in use (subsets of the sets below)
     NameCaseSigned, \* TRUE iff the RRset's type keeps the case of embedded names in the signed data
-    CacheRule       \* "required" | "asis"
+    CacheRule,      \* "required" | "asis"
+    CfgMin, CfgMax, \* configured range for the lifetime of validation cache entries
+                    \* (DnssecDnsHandle::positive_validation_ttl / negative_validation_ttl)
+    Deviation       \* "none", or one deliberate deviation of the machine from the required rules, to
+                    \* show as a TLC counterexample that the rule is needed:
+                    \* "clampAfterCap" | "markGroup" | "signerZoneOf"
 
-AllRRV  == {"genuine", "ownerCase", "owner", "class", "type", "rdataBit", "rdataNameCase", "addRecord", "dropRecord"}
+\* "addOtherClass": next to the genuine RRset a further record with the same owner and type
+\*     but another class arrives (a record of a different RRset, RFC 2181 5: no signature covers it)
+\* "forged": an RRSIG naming the zone as signer, fabricated with the private key of the DNSKEY
+\*     that the key argument presents (its algorithm and key tag)
+\* "childKey": the authenticated zone key of a securely delegated child zone (owner is a proper
+\*     subdomain of the Signer's Name)
+AllRRV  == {"genuine", "ownerCase", "owner", "class", "type", "rdataBit", "rdataNameCase", "addRecord", "dropRecord",
+            "addOtherClass"}
 AllSIGV == {"genuine", "signerCase", "origTtl", "labelsUp", "labelsDown", "inc", "exp", "keyTag", "signer", "alg",
-            "sigBit", "typeCovered"}
-AllKEYV == {"genuine", "otherKey", "revoked", "notZoneKey", "wrongOwner", "wrongAlg", "unsupportedAlg"}
+            "sigBit", "typeCovered", "forged"}
+AllKEYV == {"genuine", "otherKey", "revoked", "notZoneKey", "wrongOwner", "wrongAlg", "unsupportedAlg", "childKey"}
 
 ASSUME RRV \subseteq AllRRV /\ SIGV \subseteq AllSIGV /\ KEYV \subseteq AllKEYV
 
-Args == [rr : RRV, sig : SIGV, key : KEYV, rttl : RecTtls]
+Args == {a \in [rr : RRV, sig : SIGV, key : KEYV, rttl : RecTtls] :
+            \* a forgery is made with the private key of the presented DNSKEY, which the forger holds
+            a.sig = "forged" => a.key \in {"otherKey", "childKey"}}
 \* the single-field mutations of the property's quantifier: at most one of rr / sig / key
 \* is not the genuine object
 SingleVariantArgs ==
     {a \in Args : Cardinality({x \in {<<1, a.rr>>, <<2, a.sig>>, <<3, a.key>>} : x[2] # "genuine"}) <= 1}
+\* ... plus the forgeries (RRSIG and key go together there)
+ForgedArgs   == {a \in Args : a.sig = "forged" /\ a.rr = "genuine"}
+PropertyArgs == SingleVariantArgs \cup ForgedArgs
 
 ---------------------------------------------------------------------------
 \* what a variant means
@@ -44,7 +61,9 @@ SingleVariantArgs ==
 \* the signed data reconstructed from the presented RRset equals the genuine one (C05):
 \* the case of the owner name never matters, the case of names inside the RDATA only for
 \* the types that keep it
-RrSignedGenuine(v)  == v = "genuine" \/ v = "ownerCase" \/ (v = "rdataNameCase" /\ ~NameCaseSigned)
+RrSignedGenuine(v)  == v \in {"genuine", "ownerCase", "addOtherClass"} \/ (v = "rdataNameCase" /\ ~NameCaseSigned)
+\* records arrive with the RRset that are not members of it
+HasStray(v)         == v = "addOtherClass"
 \* the RRset still has the owner, class and type the RRSIG belongs to
 RrBelongs(v)        == v \notin {"owner", "class", "type"}
 \* every signed field of the RRSIG RDATA and the signature are the genuine ones (the
@@ -54,9 +73,13 @@ SigInc(v)     == IF v = "inc" THEN IncAlt ELSE Inc
 SigExp(v)     == IF v = "exp" THEN ExpAlt ELSE Exp
 SigOrigTtl(v) == IF v = "origTtl" THEN OrigTtlAlt ELSE OrigTtl
 \* the DNSKEY: authenticated zone key, not revoked, usable
-KeyStateOk(v) == v \in {"genuine", "wrongOwner"}   \* wrongOwner is a fine key, of another name
+KeyStateOk(v) == v \in {"genuine", "wrongOwner", "childKey"}   \* fine keys, the latter two of other names
 \* RFC 4035 5.3.1: Signer's Name, Algorithm, Key Tag match owner, algorithm, tag of the DNSKEY
-KeyMatches(s, k) == s \notin {"keyTag", "signer", "alg"} /\ k = "genuine"
+KeyOwnerIsSigner(k) ==
+    IF Deviation = "signerZoneOf" THEN k # "wrongOwner" ELSE k \notin {"wrongOwner", "childKey"}
+KeyTagAlgMatch(s, k) ==
+    IF s = "forged" THEN k # "genuine" ELSE s \notin {"keyTag", "alg"} /\ k \in {"genuine", "wrongOwner"}
+KeyMatches(s, k) == s # "signer" /\ KeyOwnerIsSigner(k) /\ KeyTagAlgMatch(s, k)
 
 Min2(a, b) == IF a < b THEN a ELSE b
 
@@ -67,7 +90,10 @@ Structural(a) ==
     /\ KeyMatches(a.sig, a.key)
 \* RFC 4035 5.3.3, abstracted: the signature verifies iff the reconstructed signed data is
 \* what was signed and the key is the signing key
-CryptoOk(a) == RrSignedGenuine(a.rr) /\ SigSignedGenuine(a.sig) /\ a.key = "genuine"
+CryptoOk(a) ==
+    /\ RrSignedGenuine(a.rr)
+    /\ \/ SigSignedGenuine(a.sig) /\ a.key \in {"genuine", "wrongOwner"}   \* the zone key's octets
+       \/ a.sig = "forged" /\ a.key # "genuine"                           \* the forger's own key
 
 InWindow(inc, exp, t)    == SLE(M, inc, t) /\ SLE(M, t, exp)
 \* RFC 1982 leaves the comparison at distance M/2 undefined: either answer
@@ -82,6 +108,9 @@ MaySecure(a, t, est) ==
     /\ (a.key = "genuine" \/ est)
     /\ MayBeInWindow(Inc, Exp, t)
 TtlMax(t) == Remaining(Exp, t)
+\* records that are not members of the RRset the RRSIG covers are never Secure by it
+MayStraySecure == FALSE
+Clamp(x) == IF x < CfgMin THEN CfgMin ELSE IF x > CfgMax THEN CfgMax ELSE x
 \* what the RFC 4035 5.3 procedure yields when nothing is cached and no comparison is undefined
 FreshSecure(a, t) ==
     KeyStateOk(a.key) /\ Structural(a) /\ InWindow(SigInc(a.sig), SigExp(a.sig), t) /\ CryptoOk(a)
